@@ -215,7 +215,7 @@ class Program:
         return {m['name']: m['value'] for m in di['members']}
 
     def dep_globals(self):
-        return [g for g in self.globals.values() if g['ty'] == '%' + DEP_STRUCT]
+        return [g for g in self.globals.values() if g['ty'] == '%' + DEP_STRUCT and not g.get('constant')]      # (a const table of defaults is data, not the library's table)
 
     def fn(self, name):
         """the unique defined function with this source name (llvm-link may append .NNN to per-unit static copies:
@@ -226,7 +226,36 @@ class Program:
         return fs[0]
 
     def fns(self, name):
-        return [f for n, f in sorted(self.defined.items()) if base_name(n) == name]
+        out = [f for n, f in sorted(self.defined.items()) if base_name(n) == name]
+        if not out:
+            # an internal helper that gained or lost the library prefix when it was moved between files (static <-> POLYSEED_PRIVATE)
+            strip = lambda x: x[len('polyseed_'):] if x.startswith('polyseed_') else x
+            out = [f for n, f in sorted(self.defined.items()) if strip(base_name(n)) == strip(name)]
+        return out
+
+    def by_type(self, f, **vals):
+        """argument list for an internal function whose parameter order may have changed: values are matched to parameters by LLVM type.
+        keys: seed (struct polyseed_data*), poly (struct gf_poly* or a pointer to its coefficients), storage / bytes (i8*), lang (struct polyseed_lang*);
+        integer parameters take the constant every call site passes (else 0)"""
+        from .e7 import role_const
+        from .bitflow import BV
+        want = {'seed': ['%' + DATA_STRUCT + '*'], 'poly': ['%struct.gf_poly*', 'i16*', 'i64*', 'i32*'], 'storage': ['i8*'], 'bytes': ['i8*'], 'lang': ['%' + LANG_STRUCT + '*']}
+        used = set(); out = []
+        for n, p in enumerate(f.params):
+            pick = None
+            for k, v in vals.items():
+                if k in used: continue
+                if p['ty'] in want.get(k, []): pick = k; break
+            if pick is not None:
+                used.add(pick); out.append(vals[pick])
+            elif not p['ty'].endswith('*'):
+                c = role_const(self, f, n)
+                out.append(BV.const(c if c is not None else 0, p['bits'] or 32))
+            else:
+                raise AnalysisBroken('parameter %d (%s) of %s has no counterpart in the harness' % (n, p['ty'], f.name))
+        if len(used) != len(vals):
+            raise AnalysisBroken('harness values %s not accepted by %s%s' % (sorted(set(vals) - used), f.name, [p['ty'] for p in f.params]))
+        return out
 
     # ---- call resolution
     def dep_wrappers(self):
@@ -338,6 +367,19 @@ class Program:
             raise AnalysisBroken('unknown role %s' % kind)
         self._roles[kind] = out
         return out
+
+    def leaves(self, f, v, depth=0):
+        """values an operand can stand for: itself, or - if it is a parameter of f (possibly behind casts / constant GEPs) - the actual arguments at every direct call
+        site of f, recursively: [(function, valref, constant offset accumulated on the way)]"""
+        base, off = strip_casts(f, v)
+        if base['k'] == 'a' and depth < 4 and off is not None:
+            out = []
+            for g in self.defined.values():
+                for ci, ct in self.calls(g):
+                    if ct == ('direct', f.name) and base['n'] < len(ci.ops):
+                        for (g2, v2, o2) in self.leaves(g, ci.ops[base['n']], depth + 1): out.append((g2, v2, None if o2 is None else o2 + off))
+            if out: return out
+        return [(f, base, off)]
 
     def role_fn(self, name, kind):
         """the Role of function `name` for this kind, or None"""
